@@ -13,7 +13,7 @@ def run(ctx):
     viol = viol + shm.miri_violations_for(ctx, mviol, "C02")
     pagg, pviol = shm.run_proc(ctx, 8 if q else 120)
     ctx.log("proc: %s" % pagg)
-    viol += [v for v in pviol if v["sig"] in ("proc-torn-snapshot", "proc-torn-or-error", "proc-unpublished", "reader-crashed", "reader-died")]
+    viol += [v for v in pviol if v["sig"] in ("proc-torn-snapshot", "proc-torn-or-error", "proc-unpublished", "reader-crashed", "reader-died", "reader-process-died")]
     inconclusive = None
     if cov["overlapped_calls"] < 1000 or magg["publication_changes_seen"] < 100 or magg["nondefault_snapshots"] < 500:
         inconclusive = "monitors observed too little (overlapped calls %d, miri publication changes %d)" % (cov["overlapped_calls"], magg["publication_changes_seen"])
